@@ -170,7 +170,7 @@ func ruleSingleRounding(w *World, r *RuleResult) {
 	f := w.fn(rounderRound)
 	key := rounderRound + " | subnormal path does not discard digits twice"
 	var divBlocks []*ssa.BasicBlock
-	for _, c := range w.callsTo(f, "(*BigInt).QuoRem") {
+	for _, c := range w.digitDiscardSites(f) {
 		divBlocks = append(divBlocks, c.Block())
 	}
 	if len(divBlocks) == 0 {
@@ -223,9 +223,7 @@ func rulePrecisionZero(w *World, r *RuleResult) {
 		r.anchorMissing(rounderRound + " param disableIfPrecisionZero")
 		return
 	}
-	var divs []*ssa.Call
-	divs = append(divs, w.callsTo(f, "(*BigInt).QuoRem")...)
-	divs = append(divs, w.callsTo(f, "(*BigInt).Quo")...)
+	divs := w.digitDiscardSites(f)
 	key := rounderRound + " | Precision 0 disables digit discarding"
 	okAll := len(divs) > 0
 	for _, d := range divs {
@@ -292,4 +290,33 @@ func rulePrecisionZero(w *World, r *RuleResult) {
 		}
 	}
 	_ = strings.Join
+}
+
+// digitDiscardSites: the calls in f that divide the coefficient (QuoRem/Quo),
+// or that hand the work to an unexported helper split off f which does.
+func (w *World) digitDiscardSites(f *ssa.Function) []*ssa.Call {
+	var out []*ssa.Call
+	out = append(out, w.callsTo(f, "(*BigInt).QuoRem")...)
+	out = append(out, w.callsTo(f, "(*BigInt).Quo")...)
+	closure := w.privateClosure(f)
+	for _, c := range callsIn(f) {
+		call, ok := c.(*ssa.Call)
+		if !ok {
+			continue
+		}
+		g := callee(call)
+		if g == nil || g == f || !closure[g] {
+			continue
+		}
+		for h := range w.reachable([]*ssa.Function{g}) {
+			if !closure[h] {
+				continue
+			}
+			if len(w.callsTo(h, "(*BigInt).QuoRem")) > 0 || len(w.callsTo(h, "(*BigInt).Quo")) > 0 {
+				out = append(out, call)
+				break
+			}
+		}
+	}
+	return out
 }
